@@ -105,7 +105,7 @@ def _contains_key(node, keys):
 def generate(rng, tier="quick"):
     n = rng.randint(4, 20)
     kinds = ["tc_redefine", "tc_redefine_many", "tc_remove", "tc_remove_unknown", "extend_noop", "extend_kw",
-             "extend_tc", "extend_kw_tc", "create_clone", "create_plain", "create_partial", "subclass_plain", "create_version", "create_default_types",
+             "extend_tc", "extend_kw_tc", "create_clone", "create_plain", "create_partial", "subclass_plain", "extend_reuse_dict", "extend_hybrid", "create_version", "create_default_types",
              "create_illegal", "extend_illegal", "instance_types", "fc_new", "fc_subset", "fc_subset_unknown",
              "fc_checks", "cls_checks", "suspend", "resume", "set_meta", "mutate_meta_top", "tc_redefine_same_dict", "extend_version", "instance_future_ref", "instance_future_ref"]
     enabled = [k for k in kinds if rng.random() < 0.75] or kinds
@@ -117,6 +117,8 @@ def generate(rng, tier="quick"):
             op["kws"] = rng.sample(OVERRIDABLE, rng.randint(1, 2))
             if rng.random() < 0.15:
                 op["kws"] = ["$ref"]
+        if k == "extend_reuse_dict":
+            op["kws"] = rng.sample(OVERRIDABLE, rng.randint(1, 2))
         if k == "create_partial":
             # a small dialect: a keyword table WITHOUT some of the parent's keywords (often without $ref)
             op["kws"] = rng.sample(OVERRIDABLE, rng.randint(1, 3)) + (["$ref"] if rng.random() < 0.6 else [])
@@ -451,6 +453,31 @@ def execute(scn):
                 new = V.create(meta_schema={"$id": "urn:dsim:meta:%d" % step}, validators=parent["obj"].VALIDATORS)
                 add("class", new, step, k)
                 ok = True
+            elif k == "extend_reuse_dict":
+                # ONE overrides dict handed to extend() twice, for two different parents: the mapping is the caller's
+                # (it must come back unchanged) and each child differs from ITS parent in the listed keywords only
+                pa, pb = pick("class", op["a"]), pick("class", op["b"])
+                ov = dict((n, kw_override(n, op["v"])) for n in op["kws"])
+                before = dict(ov)
+                for parent in (pa, pb):
+                    new = V.extend(parent["obj"], validators=ov)
+                    if dict(ov) != before or any(ov[n] is not before[n] for n in before):
+                        violations.append({"oracle": "extend-modified-the-callers-mapping", "where": step, "op": k,
+                                           "detail": {"before": sorted(before), "after": sorted(ov)[:12]}})
+                        break
+                    ent = add("class", new, step, k + "<" + parent["note"])
+                    compare_with_parent(step, k, parent, ent["vec"], sorted(before), False)
+                probe_count("one_overrides_dict_used_for_two_extensions")
+                ok = True
+                shared_touch += 1
+            elif k == "extend_hybrid":
+                # another class's keyword table handed over as the overrides (a "hybrid" dialect): that class stays as it is
+                pa, pb = pick("class", op["a"]), pick("class", op["b"])
+                new = V.extend(pa["obj"], validators=pb["obj"].VALIDATORS)
+                add("class", new, step, k)
+                probe_count("existing_keyword_table_passed_as_overrides")
+                ok = True
+                shared_touch += 1
             elif k == "subclass_plain":
                 # the other way to derive: a plain `class Mine(DraftNValidator): pass` (here with a class attribute of
                 # its own) - behaves like its parent and disturbs nobody
